@@ -205,6 +205,12 @@ Proof.
   destruct (op_facts x H) as (Hn & _). revert Hn. unf. lia.
 Qed.
 
+Lemma number_op2 x y l c : op_ok x = true -> tok_is_number (mkTok [x; y] l c false) = false.
+Proof.
+  intros H. unfold tok_is_number, is_number. cbn [tstr tcomment negb andb].
+  destruct (op_facts x H) as (Hn & _). revert Hn. unf. lia.
+Qed.
+
 (* a token that is a name, or whose successor is a name or is not adjacent, is kept *)
 Lemma decide_keep pn t r :
   op_of t <> 46 ->
@@ -218,13 +224,27 @@ Proof.
   destruct r as [|n r2]; [reflexivity|]. cbn [andb]. rewrite H3. reflexivity.
 Qed.
 
+Definition prev_num (prev : option tokp) : bool := match prev with Some p => tok_is_number p | None => false end.
+
 Lemma decide_merge pn a b l c rest : In (a, b) S2 ->
+  (is_shift (TOp2 a b) = true -> match rest with e :: _ => op_of e <> 61 | [] => True end) ->
+  (is_incdec (TOp2 a b) = true -> pn = false /\ match rest with n2 :: _ => tok_is_number n2 = false | [] => True end) ->
   decide pn (mkTok [a] l c false) (mkTok [b] l (c + 1) false :: rest) = AMerge2 [a; b].
 Proof.
-  intros H. cbn [S2 In] in H.
-  repeat (destruct H as [H|H];
+  intros H Hsh Hid. cbn [S2 In] in H.
+  do 15 (destruct H as [H|H];
           [injection H as <- <-; unfold decide, adjacent; cbn [tline tcol]; rewrite !N.eqb_refl; reflexivity|]).
-  contradiction.
+  destruct H as [H|[H|[H|[H|[]]]]]; injection H as <- <-.
+  - specialize (Hsh eq_refl). unfold decide, adjacent; cbn [tline tcol]; rewrite !N.eqb_refl. cbn.
+    destruct rest as [|e [|e2 r]]; try reflexivity.
+    assert (E : (op_of e =? 61) = false) by lia. rewrite E. reflexivity.
+  - specialize (Hsh eq_refl). unfold decide, adjacent; cbn [tline tcol]; rewrite !N.eqb_refl. cbn.
+    destruct rest as [|e [|e2 r]]; try reflexivity.
+    assert (E : (op_of e =? 61) = false) by lia. rewrite E. reflexivity.
+  - destruct (Hid eq_refl) as [-> Hn]. unfold decide, adjacent; cbn [tline tcol]; rewrite !N.eqb_refl. cbn.
+    destruct rest as [|n2 r]; [reflexivity|]. rewrite Hn. reflexivity.
+  - destruct (Hid eq_refl) as [-> Hn]. unfold decide, adjacent; cbn [tline tcol]; rewrite !N.eqb_refl. cbn.
+    destruct rest as [|n2 r]; [reflexivity|]. rewrite Hn. reflexivity.
 Qed.
 
 Lemma not_adjacent T nx w l c : w <> [] -> tline T = l -> tcol T + 1 = c ->
@@ -237,20 +257,19 @@ Proof.
   apply N.eqb_eq in E1. symmetry in E1. specialize (Heq E1). cbn [andb]. lia.
 Qed.
 
-Definition head_op (t : stok2) : N := match t with TName _ => 0 | TOp c => c | TOp2 a _ => a end.
-
 Lemma p1_head ws b r l c : stok2_ok b = true ->
   match p1 ws (b :: r) l c with
   | [] => ws = []
-  | n :: _ => exists w ws', ws = w :: ws' /\ op_of n = head_op b /\ tline n = fst (adjust w l c) /\ tcol n = snd (adjust w l c)
+  | n :: _ => exists w ws', ws = w :: ws' /\ op_of n = head_op b /\ tline n = fst (adjust w l c) /\ tcol n = snd (adjust w l c) /\
+                            tok_is_number n = is_num_tok b
   end.
 Proof.
   intros Hb. destruct ws as [|w ws']; [reflexivity|]. cbn [p1].
   destruct (adjust w l c) as [l1 c1] eqn:E.
   destruct b as [n|x|x y]; cbn [toks_of app head_op stok2_ok] in *; exists w, ws'; rewrite ?E; cbn [fst snd tline tcol].
   - repeat split. apply op_of_name; [destruct n; [discriminate|congruence] | destruct n; [discriminate|exact Hb]].
-  - apply andb_true_iff in Hb. destruct Hb as [Hb _]. repeat split. apply op_of_op. exact Hb.
-  - destruct (S2_facts x y (S2_in x y Hb)) as (Hx & _). repeat split. apply op_of_op. exact Hx.
+  - apply andb_true_iff in Hb. destruct Hb as [Hb _]. repeat split; [apply op_of_op; exact Hb | apply number_op; exact Hb].
+  - destruct (S2_facts x y (S2_in x y Hb)) as (Hx & _). repeat split; [apply op_of_op; exact Hx | apply number_op; exact Hx].
 Qed.
 
 Lemma combine_p1 toks : forall ws line col prev,
@@ -259,9 +278,10 @@ Lemma combine_p1 toks : forall ws line col prev,
   forallb stok2_ok toks = true ->
   sep2_ok ws toks = true ->
   no_exp toks = true ->
+  ctx_ok (prev_num prev) toks = true ->
   combine prev (p1 ws toks line col) = merged ws toks line col.
 Proof.
-  induction toks as [|t r IH]; intros ws line col prev Hlen Hws Hok Hsep Hexp.
+  induction toks as [|t r IH]; intros ws line col prev Hlen Hws Hok Hsep Hexp Hctx.
   - destruct ws as [|w ws']; reflexivity.
   - destruct ws as [|w ws']; [discriminate|]. cbn [length] in Hlen. injection Hlen as Hlen.
     inversion Hws as [|? ? Hw Hws']; subst.
@@ -272,14 +292,18 @@ Proof.
       cbn [sep2_ok] in Hsep. apply andb_true_iff in Hsep. tauto. }
     assert (Hexp' : no_exp r = true).
     { destruct t; cbn [no_exp] in Hexp; auto. destruct r; [reflexivity|]. apply andb_true_iff in Hexp. tauto. }
-    pose proof (fun pv => IH ws' l1 (c1 + len (stok2_str t)) pv Hlen Hws' Hr Hsep' Hexp') as IH'.
+    cbn [ctx_ok] in Hctx. apply andb_true_iff in Hctx. destruct Hctx as [Hctx Hctx'].
+    apply andb_true_iff in Hctx. destruct Hctx as [Hshift Hincdec].
+    pose proof (fun pv (E : prev_num pv = is_num_tok t) =>
+                  IH ws' l1 (c1 + len (stok2_str t)) pv Hlen Hws' Hr Hsep' Hexp'
+                     (eq_ind_r (fun b => ctx_ok b r = true) Hctx' E)) as IH'.
     destruct t as [n|x|a b]; cbn [toks_of app stok2_str].
     + (* name *)
       assert (Hne : n <> []) by (destruct n; [discriminate|congruence]).
       assert (Hnc : forallb is_name_char n = true) by (destruct n; [discriminate|exact Ht]).
       cbn [combine]. rewrite decide_keep.
-      * rewrite IH'. reflexivity.
-      * rewrite (op_of_name n l1 c1 Hne Hnc). lia.
+      * rewrite IH'; reflexivity.
+      * rewrite (op_of_name n l1 c1 Hne Hnc). discriminate.
       * destruct r as [|b r']; [destruct ws'; cbn [p1]; apply andb_false_r|].
         cbn [forallb] in Hr. apply andb_true_iff in Hr. destruct Hr as [Hb _].
         pose proof (p1_head ws' b r' l1 (c1 + len n) Hb) as Hh.
@@ -294,14 +318,14 @@ Proof.
     + (* one-character operator *)
       apply andb_true_iff in Ht. destruct Ht as [Hx H46]. apply negb_true_iff in H46.
       cbn [combine]. rewrite decide_keep.
-      * rewrite IH'. reflexivity.
-      * rewrite (op_of_op x l1 c1 Hx). lia.
+      * rewrite IH'; [reflexivity | exact (number_op x l1 c1 Hx)].
+      * rewrite (op_of_op x l1 c1 Hx). clear - H46. lia.
       * rewrite (number_op x l1 c1 Hx). reflexivity.
       * destruct r as [|b r']; [destruct ws'; exact I|].
         cbn [forallb] in Hr. apply andb_true_iff in Hr. destruct Hr as [Hb _].
         pose proof (p1_head ws' b r' l1 (c1 + len [x]) Hb) as Hh.
         destruct (p1 ws' (b :: r') l1 (c1 + len [x])) as [|nx rest]; [exact I|].
-        destruct Hh as (w1 & ws'' & -> & Hop & Hl & Hc).
+        destruct Hh as (w1 & ws'' & -> & Hop & Hl & Hc & _).
         destruct b as [m|y|y z]; cbn [head_op] in Hop.
         -- rewrite Hop, N.eqb_refl, orb_true_r. reflexivity.
         -- cbn [sep2_ok needs_sep2 negb orb] in Hsep. apply andb_true_iff in Hsep. destruct Hsep as [Hs _].
@@ -310,11 +334,25 @@ Proof.
         -- cbn [sep2_ok needs_sep2 negb orb] in Hsep. apply andb_true_iff in Hsep. destruct Hsep as [Hs _].
            rewrite (not_adjacent (mkTok [x] l1 c1 false) nx w1 l1 (c1 + len [x]));
              [rewrite orb_true_r; reflexivity | destruct w1; [discriminate|congruence] | reflexivity | reflexivity | exact Hl | exact Hc].
-    + (* two-character operator: merged, then the next token is a name head or not adjacent -- the merged token
-         is not looked at again *)
+    + (* two-character operator: merged (the merged token is not looked at again) *)
       pose proof (S2_in a b Ht) as Hin.
-      cbn [combine]. rewrite (decide_merge _ a b l1 c1 _ Hin). cbn [setstr tline tcol tcomment].
-      rewrite IH'. reflexivity.
+      destruct (S2_facts a b Hin) as (Ha & Hb' & _).
+      cbn [combine]. rewrite (decide_merge _ a b l1 c1 _ Hin).
+      * cbn [setstr tline tcol tcomment]. rewrite IH'; [reflexivity|].
+        exact (number_op2 a b l1 c1 Ha).
+      * intros Hs. rewrite Hs in Hshift. cbn [negb orb] in Hshift.
+        destruct r as [|b2 r']; [destruct ws'; exact I|].
+        cbn [forallb] in Hr. apply andb_true_iff in Hr. destruct Hr as [Hb2 _].
+        pose proof (p1_head ws' b2 r' l1 (c1 + len [a; b]) Hb2) as Hh.
+        destruct (p1 ws' (b2 :: r') l1 (c1 + len [a; b])) as [|nx rest]; [exact I|].
+        destruct Hh as (w1 & ws'' & _ & Hop & _). rewrite Hop. clear - Hshift. lia.
+      * intros Hi. rewrite Hi in Hincdec. cbn [negb orb] in Hincdec.
+        apply andb_true_iff in Hincdec. destruct Hincdec as [Hp Hnx]. apply negb_true_iff in Hp. split; [exact Hp|].
+        destruct r as [|b2 r']; [destruct ws'; exact I|].
+        cbn [forallb] in Hr. apply andb_true_iff in Hr. destruct Hr as [Hb2 _].
+        pose proof (p1_head ws' b2 r' l1 (c1 + len [a; b]) Hb2) as Hh.
+        destruct (p1 ws' (b2 :: r') l1 (c1 + len [a; b])) as [|nx rest]; [exact I|].
+        destruct Hh as (w1 & ws'' & _ & _ & _ & _ & Hnum). rewrite Hnum. apply negb_true_iff. exact Hnx.
 Qed.
 
 (* ------------------------------------------------------------------ the theorem *)
@@ -324,9 +362,10 @@ Theorem lex_render_munch toks ws :
   forallb stok2_ok toks = true ->
   sep2_ok ws toks = true ->
   no_exp toks = true ->
+  ctx_ok false toks = true ->
   lex (render2 ws toks) = merged ws toks 1 1.
 Proof.
-  intros H1 H2 H3 H4 H5. unfold lex, lex1.
+  intros H1 H2 H3 H4 H5 H6. unfold lex, lex1.
   rewrite norm_cr_id by (apply render2_no_cr; assumption).
   rewrite (lex1_render2_gen toks ws 1 1 H1 H2 H3 H4).
   rewrite p1_lines by lia.
